@@ -1,7 +1,7 @@
 #!/bin/bash
 # usage: tools/confirm_seed.sh <ID> <mN> : independently confirm a seeded mutation (suite passes with it,
 # demo passes on the clean tree and fails with it) and store it under seeded/<ID>-<mN>/
-id=$1; m=$2; src=/tmp/seedout/$id/$m
+id=$1; m=$2; src=${SEEDOUT:-/tmp/seedout}/$id/$m
 d=/tmp/confirm-$id-$m-$$
 out=/verif/seeded/$id-$m
 git -C /repo worktree add -q --detach $d HEAD || exit 2
